@@ -9,10 +9,12 @@ import traceback
 from . import common as C
 
 DISPATCH = {
+    "C01": ("harness.ledger", "run"),
     "C06": ("harness.herd", "run"),
     "C07": ("harness.herd", "run"),
     "C10": ("harness.units", "run"),
     "C11": ("harness.foodalg", "run"),
+    "C18": ("harness.handoff", "run"),
 }
 
 
